@@ -51,6 +51,11 @@ fn c06_wiring<const N: usize>(right: bool) {
 #[kani::proof] #[kani::stub(segment, rec_segment_right)] #[kani::unwind(8)] fn c06_wiring_right_n3() { c06_wiring::<3>(true) }
 #[kani::proof] #[kani::stub(segment, rec_segment_right)] #[kani::unwind(8)] fn c06_wiring_right_n4() { c06_wiring::<4>(true) }
 #[kani::proof] #[kani::stub(segment, rec_segment_right)] #[kani::unwind(8)] fn c06_wiring_right_n5() { c06_wiring::<5>(true) }
+// long knot lists
+#[kani::proof] #[kani::stub(segment, rec_segment_left)] #[kani::unwind(15)] fn c06_wiring_left_n12() { c06_wiring::<12>(false) }
+#[kani::proof] #[kani::stub(segment, rec_segment_right)] #[kani::unwind(15)] fn c06_wiring_right_n12() { c06_wiring::<12>(true) }
+#[kani::proof] #[kani::stub(segment, rec_segment_left)] #[kani::unwind(27)] fn c06_wiring_left_n24() { c06_wiring::<24>(false) }
+#[kani::proof] #[kani::stub(segment, rec_segment_right)] #[kani::unwind(27)] fn c06_wiring_right_n24() { c06_wiring::<24>(true) }
 
 #[kani::proof]
 #[kani::unwind(4)]
